@@ -173,3 +173,12 @@ text("C05",
      "a real HopServer over a real transport server on the simulated network; per run three users with drawn key sets, authorized-keys files assembled from valid entries, other users' keys, comments, blank lines, garbage, wrong prefixes, truncated base64, wrong lengths, over-long lines, CRLF, in any order, served by a faulty fs.FS (missing file, EACCES/EIO on open, read error after k bytes, one-byte reads, torn and empty content); scripted clients log in concurrently as drawn users (also unknown and empty user names) with drawn keys while grants are added concurrently, with grants enabled or disabled, and the two authorisation entry points are also called directly; reference model: allowed(user,key) iff key is the decoded value of a well-formed line of the STORED content of that user's file, or a grant addition for exactly (user,key) was invoked before the confirmation and not yet used by another login; only the 'only if' direction is judged; grant conservation (added = handed out + still stored) under concurrent AddAuthGrant / AuthorizeKeyAuthGrant",
      TB + "; which grant additions a login consumed is not observable, so each grant-based login is matched to its own addition (sound lower bound)",
      "deterministic simulation with fault injection (faulty file system + concurrent logins against a reference model of listed keys and grants)", "DESIGN.md 4 C05")
+
+add("C06", "exploration",
+    [{"name": "principal", "quick_s": 30, "thorough_s": 600}],
+    real=["authgrants.StartPrincipalInstance (principal state machine)", "authgrants.StartTargetInstance", "authgrants message encoders/decoders", "common.WriteString/ReadString", "certs (delegate certificate encoding)"],
+    stub=["the three parties are joined by in-memory buffered stream connections with a fault layer (fragmentation, stalls, death at a drawn byte) instead of tubes over a hop session", "the approval callback, the target-setup function and (in half of the runs) the target are scripted"])
+text("C06",
+     "three-party simulation: a scripted delegate sends 1-5 well-formed intent requests (shell and command grants, fields at the framing limits 0/1/255, same or different target), the REAL principal instance runs with a scripted approval callback (approve/deny per request, short and 300-byte reasons) and a hopclient-like target-setup function (verification callback inside connection establishment; failure before it, after it, or a connection that dies at a drawn byte), and the target is the REAL target instance with scripted policy/store results or a scripted one (confirm, deny, wrong message type, garbage, close); streams are fragmented and stalled; oracle over the recorded history: every intent that reaches the target connection equals field for field one the approval callback accepted earlier and whose approval was not already used; the delegate gets exactly one well-framed answer per request (a quiet period after the first answer exposes a second one); a confirmation only if the target accepted and stored that intent",
+     TB + "; a target that leaves a message unfinished and stalls keeps the request legitimately in flight and is not simulated (no time bound is stated)",
+     "deterministic simulation with fault injection (scripted-counterpart history search, approval-log oracle)", "DESIGN.md 4 C06")
